@@ -290,7 +290,9 @@ def gen_contract(rng, n):
         inp = {"kind": kind, "dim": dim, "shape": shape, "force_oriented": fo}
         if kind == "origin_to":
             inp["pts"] = [L.encV(Q.rball(rng, dim)) for _ in range(cnt)]
-            inp["scale"] = [Q.qs(Q.rq(rng, 20, 5, nonzero=True)) for _ in range(cnt)]
+            # a point is projective: any non-zero multiple of the representative, of any magnitude and sign
+            inp["scale"] = [Q.qs(rng.choice([Q.rq(rng, 20, 5, nonzero=True), F(1, 50000), F(-3, 1000000), F(1000), F(-1, 3)]))
+                            for _ in range(cnt)]
         elif kind in ("tv_origin_to", "isometry_to"):
             m = 2 if kind == "isometry_to" else 1
             inp["frames"] = [[L.encM(L.random_rational_isometry(rng, dim, 2)[:2]) for _ in range(cnt)] for _ in range(m)]
@@ -298,7 +300,7 @@ def gen_contract(rng, n):
         elif kind in ("timelike_to", "spacelike_to"):
             inp["shape"] = []
             g = L.random_rational_isometry(rng, dim, 2)
-            sc = Q.rq(rng, 9, 4, nonzero=True)
+            sc = rng.choice([Q.rq(rng, 9, 4, nonzero=True), F(1, 40000), F(-7, 1000000), F(500)])
             row = g[0] if kind == "timelike_to" else g[1]
             inp["v"] = L.encV([x * sc for x in row])
         elif kind == "frame_to":
@@ -445,7 +447,7 @@ def gen_fletter(rng, dim, tmax):
     l = {"kind": k, "fo": rng.random() < 0.5}
     if k in ("origin_to", "timelike_to"):
         l["p"] = fball(rng, dim, math.tanh(tmax / 2))
-        l["s"] = rng.choice([1.0, -1.0, 0.3, 2.5])
+        l["s"] = rng.choice([1.0, -1.0, 0.3, 2.5, 2e-5, -3e-6, 1e3])
     elif k in ("tv_origin_to", "isometry_to", "spacelike_to"):
         l["p"] = fball(rng, dim, math.tanh(tmax / 2))
         l["v"] = [rng.gauss(0, 1) for _ in range(dim + 1)]
@@ -485,7 +487,8 @@ def gen_fletter(rng, dim, tmax):
 def build_fletter(l, dim):
     k = l["kind"]
     if k == "origin_to":
-        return H.Point(np.array(l["p"]), model="klein").origin_to(force_oriented=l["fo"])
+        x = H.Point(np.array(l["p"]), model="klein").proj_data * l["s"]
+        return H.Point(x.copy()).origin_to(force_oriented=l["fo"])
     if k == "timelike_to":
         x = H.Point(np.array(l["p"]), model="klein").hyperboloid_coords().copy() * l["s"]
         return H.timelike_to(x, force_oriented=l["fo"])
